@@ -2,6 +2,9 @@
 let suites : (string * (string -> string)) list = [
   ("smap", Suite_smap.run);
   ("lex", Suite_lex.run);
+  ("parse", Suite_parse.run);
+  ("icept", Suite_parse.run);
+  ("reg", Suite_parse.run);
 ]
 
 let () =
